@@ -1,0 +1,8 @@
+//go:build !verif
+// +build !verif
+
+package massdb_v1
+
+func verifCacheSize(required uint64) (uint64, bool) { return 0, false }
+
+func verifPoint(name, pass string, start, end uint64) {}
